@@ -87,3 +87,39 @@ func (m *MS) Same(snap []*vstore.Mem) bool {
 	}
 	return true
 }
+
+// CLeaf is a committable leaf store (stands for an IAVL / transient substore under rootmulti.Store).
+type CLeaf struct {
+	Leaf
+	Typ       types.StoreType
+	Ver       *int64 // last committed version (shared by copies of the struct)
+	Transient bool
+}
+
+var _ types.CommitKVStore = CLeaf{}
+
+func NewCLeaf(typ types.StoreType) CLeaf {
+	v := int64(0)
+	return CLeaf{Leaf: Leaf{vstore.New()}, Typ: typ, Ver: &v, Transient: typ == types.StoreTypeTransient}
+}
+
+func (c CLeaf) GetStoreType() types.StoreType { return c.Typ }
+func (c CLeaf) Commit() types.CommitID {
+	*c.Ver++
+	if c.Transient {
+		c.Mem.E = nil
+		return types.CommitID{}
+	}
+	return types.CommitID{Version: *c.Ver, Hash: []byte{byte(*c.Ver)}}
+}
+func (c CLeaf) LastCommitID() types.CommitID {
+	if c.Transient {
+		return types.CommitID{}
+	}
+	return types.CommitID{Version: *c.Ver, Hash: []byte{byte(*c.Ver)}}
+}
+func (c CLeaf) SetPruning(types.PruningOptions) {}
+func (c CLeaf) CacheWrap() types.CacheWrap      { return cachekv.NewStore(c) }
+func (c CLeaf) CacheWrapWithTrace(w io.Writer, tc types.TraceContext) types.CacheWrap {
+	return cachekv.NewStore(c)
+}
